@@ -383,3 +383,59 @@ func bScale(n int) int {
 	}
 	return n
 }
+
+// bLRU: a plain strict LRU NodeCache (the interface allows any implementation; the library's own
+// NewNodeCache is an ARC cache, which evicts differently)
+type bLRU struct {
+	mu    sync.Mutex
+	cap   int
+	tick  int
+	items map[interface{}]*bLRUEntry
+}
+
+type bLRUEntry struct {
+	v    interface{}
+	used int
+}
+
+func newBLRU(capacity int) *bLRU { return &bLRU{cap: capacity, items: map[interface{}]*bLRUEntry{}} }
+
+func (c *bLRU) Add(key, value interface{}) {
+	c.mu.Lock()
+	defer c.mu.Unlock()
+	c.tick++
+	if e, ok := c.items[key]; ok {
+		e.v, e.used = value, c.tick
+		return
+	}
+	c.items[key] = &bLRUEntry{value, c.tick}
+	for len(c.items) > c.cap {
+		var oldest interface{}
+		min := c.tick + 1
+		for k, e := range c.items {
+			if e.used < min {
+				min, oldest = e.used, k
+			}
+		}
+		delete(c.items, oldest)
+	}
+}
+
+func (c *bLRU) Contains(key interface{}) bool {
+	c.mu.Lock()
+	defer c.mu.Unlock()
+	_, ok := c.items[key]
+	return ok
+}
+
+func (c *bLRU) Get(key interface{}) (interface{}, bool) {
+	c.mu.Lock()
+	defer c.mu.Unlock()
+	e, ok := c.items[key]
+	if !ok {
+		return nil, false
+	}
+	c.tick++
+	e.used = c.tick
+	return e.v, true
+}
